@@ -122,15 +122,18 @@ theorem fresh_scope_inv (L : Layout) (r : Rd) (hdoc : r.doc = L.doc) (hpos : r.p
 than the array under the Skip policy, a partly read nested array — without disturbing what is requested
 afterwards. The request language of the history theorems is extended accordingly. -/
 
-/-- a request on an object scope: a scalar by key, or the array under a key read with the target kinds `tys`
-    (as many or as few elements as the caller likes) and closed -/
+/-- a request on an object scope: a scalar by key, the array under a key read with the target kinds `tys`
+    (as many or as few elements as the caller likes) and closed, or the `bin` value under a key opened as a binary
+    scope of which `n` bytes (all, some, none) are read before it is closed -/
 inductive OReq where
   | get (k : Key) (ty : Ty)
   | arr (k : Key) (tys : List Ty)
+  | bin (k : Key) (n : Nat)
 
 inductive OAns where
   | val (a : Option Sc)
   | arr (a : Option (List (Option Sc)))
+  | bin (a : Option (List Nat))
 
 def runReq : OReq → Obj → Rd → Except Err (OAns × Obj × Rd)
   | .get k ty, o, r =>
@@ -140,6 +143,10 @@ def runReq : OReq → Obj → Rd → Except Err (OAns × Obj × Rd)
   | .arr k tys, o, r =>
     match objReadArr k tys o r with
     | .ok (a, o', r') => .ok (.arr a, o', r')
+    | .error e => .error e
+  | .bin k n, o, r =>
+    match objReadBin k n o r with
+    | .ok (a, o', r') => .ok (.bin a, o', r')
     | .error e => .error e
 
 def runReqs : List OReq → Obj → Rd → Except Err (List OAns × Obj × Rd)
@@ -159,6 +166,11 @@ def ReqAnswerOK (L : Layout) (mis : Mis) : OReq → OAns → Prop
   | .arr k tys, .arr a =>
     (∃ (m : Nat) (e : Key × List Tok), L.entries[m]? = some e ∧ e.1 = k ∧ ArrOutcome mis tys e.2 (.ok a)) ∨
     ((∀ m, keyAt L m ≠ some k) ∧ a = none)
+  -- a binary-scope request: the FIRST `n` bytes of the `bin` value stored under the key (`none`: absent key or a value
+  -- that is not a `bin`, which is left in place)
+  | .bin k n, .bin a =>
+    (∃ (m : Nat) (e : Key × List Tok), L.entries[m]? = some e ∧ e.1 = k ∧ BinOutcome n e.2 (.ok a)) ∨
+    ((∀ m, keyAt L m ≠ some k) ∧ a = none)
   | _, _ => False
 
 /-- the exception a request may raise: the policy's exception for the requested field / for one of the requested
@@ -166,8 +178,12 @@ def ReqAnswerOK (L : Layout) (mis : Mis) : OReq → OAns → Prop
 def ReqErrorOK (L : Layout) (mis : Mis) : OReq → Err → Prop
   | .get k ty, err => ErrorOK L mis (k, ty) err
   | .arr k tys, err => ∃ (m : Nat) (e : Key × List Tok), L.entries[m]? = some e ∧ e.1 = k ∧ ArrOutcome mis tys e.2 (.error err)
+  -- more bytes requested than the value has: OutOfRange
+  | .bin k n, err => ∃ (m : Nat) (e : Key × List Tok), L.entries[m]? = some e ∧ e.1 = k ∧ BinOutcome n e.2 (.error err)
 
-/-- **one request of the extended language** re-establishes the cursor invariant, whatever part of an array it left unread -/
+/-- **one request of the extended language** re-establishes the cursor invariant, whatever part of an array or of a
+    `bin` value it left unread (the values of the object may be ext values / timestamps: `Layout.WF` admits every
+    complete value) -/
 theorem req_correct (L : Layout) (hwf : L.WF) (harr : L.ArrWF) (q : OReq) (o : Obj) (r : Rd) (hinv : Inv L o r) :
     match runReq q o r with
     | .ok (a, o', r') => ReqAnswerOK L r.mis q a ∧ Inv L o' r' ∧ r'.mis = r.mis
@@ -193,11 +209,26 @@ theorem req_correct (L : Layout) (hwf : L.WF) (harr : L.ArrWF) (q : OReq) (o : O
         exact ⟨m, e, he, hk, hout⟩
     · rw [h]
       exact ⟨Or.inr ⟨hno, rfl⟩, hinv', hm⟩
+  | bin k n =>
+    simp only [runReq]
+    rcases objReadBin_spec L hwf k n o r hinv with ⟨m, e, out, he, hk, hout, h⟩ | ⟨hno, o', r', h, hinv', hm⟩
+    · cases out with
+      | ok a =>
+        obtain ⟨o', r', h1, h2, h3⟩ := h
+        rw [h1]
+        exact ⟨Or.inl ⟨m, e, he, hk, hout⟩, h2, h3⟩
+      | error err =>
+        simp only at h
+        rw [h]
+        exact ⟨m, e, he, hk, hout⟩
+    · rw [h]
+      exact ⟨Or.inr ⟨hno, rfl⟩, hinv', hm⟩
 
 /-- **C03, every history, with arrays left partly read.** Any sequence of requests — scalars by key in any order,
-    repeated and absent keys, and arrays by key of which only the first few elements (or none) are read before the
-    array scope is destroyed — gets, request by request, exactly the abstract answers: an array left partly read
-    disturbs nothing that follows. If an exception is raised it is the policy's exception for one of the requests. -/
+    repeated and absent keys, arrays by key of which only the first few elements (or none) are read before the
+    array scope is destroyed, and `bin` values by key opened as binary scopes of which all, some or none of the bytes
+    are read (also `OpenBinaryScope` on values that are not `bin`) — gets, request by request, exactly the abstract
+    answers: an array or a `bin` value left partly read disturbs nothing that follows. If an exception is raised it is the policy's exception for one of the requests. -/
 theorem history_with_arrays_correct (L : Layout) (hwf : L.WF) (harr : L.ArrWF) (qs : List OReq) :
     ∀ (o : Obj) (r : Rd), Inv L o r →
     match runReqs qs o r with
@@ -229,8 +260,8 @@ theorem history_with_arrays_correct (L : Layout) (hwf : L.WF) (harr : L.ArrWF) (
         simp only [hr]
         exact ⟨Forall2.cons ha (hm ▸ h1), h2, by rw [h3, hm]⟩
 
-/-- **C03, unread fields and unread elements are skipped.** After ANY history of the extended language, destroying
-    the object scope leaves the reader exactly behind the object. -/
+/-- **C03, unread fields, unread elements and unread bytes are skipped.** After ANY history of the extended language,
+    destroying the object scope leaves the reader exactly behind the object. -/
 theorem close_after_any_history_with_arrays (L : Layout) (hwf : L.WF) (harr : L.ArrWF) (qs : List OReq) (o : Obj) (r : Rd)
     (hinv : Inv L o r) (as : List OAns) (o' : Obj) (r' : Rd) (hrun : runReqs qs o r = .ok (as, o', r')) :
     ∃ o'' r'', objClose o' r' = .ok (o'', r'') ∧ r''.pos = L.posOf L.size ∧ r''.rest = L.post := by
@@ -321,6 +352,82 @@ theorem objReadArr_is_machine (key : Key) (tys : List Ty) (o : Obj) (r : Rd) (tl
               have := arrReads_is_machine tys n 0 r2 (.obj o1 :: tl) d as idx r3 hrd (.close :: qs)
               simp only [run, step, hf, hs, this, hcl, notifyParent]
 
+def byteAns (b : Nat) : Ans := .val (.byte b)
+
+/-- `binReads` = the machine's `SerializeValue(byte)` steps on a binary scope -/
+theorem binReads_is_machine (k : Nat) : ∀ (size index : Nat) (r : Rd) (tl : List Scope) (d : Option Err)
+    (bs : List Nat) (idx : Nat), binReads k size index r = .ok (bs, idx) →
+    ∀ qs, run ⟨r, .bin size index :: tl, d⟩ (List.replicate k .readByte ++ qs) = bs.map byteAns ++ run ⟨r, .bin size idx :: tl, d⟩ qs := by
+  induction k with
+  | zero =>
+    intro size index r tl d bs idx h qs
+    simp only [binReads, Except.ok.injEq, Prod.mk.injEq] at h
+    obtain ⟨rfl, rfl⟩ := h
+    rfl
+  | succ k ih =>
+    intro size index r tl d bs idx h qs
+    simp only [binReads] at h
+    cases hc : checkEnd size index with
+    | error e => simp [hc] at h
+    | ok u =>
+      cases hr : r.readBinary index with
+      | error e => simp [hc, hr] at h
+      | ok b =>
+        cases hrest : binReads k size (index + 1) r with
+        | error e => simp [hc, hr, hrest] at h
+        | ok res2 =>
+          obtain ⟨bs', idx'⟩ := res2
+          simp only [hc, hr, hrest, Except.ok.injEq, Prod.mk.injEq] at h
+          obtain ⟨rfl, rfl⟩ := h
+          have := ih size (index + 1) r tl d bs' idx' hrest qs
+          simp only [List.replicate_succ, List.map_cons, List.cons_append, run, step, hc, hr, byteAns, this]
+
+/-- **`objReadBin` = the machine's `OpenBinaryScope(key)`, byte requests, destruction of the binary scope**, from any
+    state of the enclosing object scope and whatever is requested afterwards (`qs`) -/
+theorem objReadBin_is_machine (key : Key) (k : Nat) (o : Obj) (r : Rd) (tl : List Scope) (d : Option Err) :
+    match objReadBin key k o r with
+    | .ok (some bs, o', r') => ∃ n, ∀ qs,
+        run ⟨r, .obj o :: tl, d⟩ (.openBinK key :: (List.replicate k .readByte ++ .close :: qs))
+          = .opened n :: (bs.map byteAns ++ .closed :: run ⟨r', .obj o' :: tl, d⟩ qs)
+    | .ok (none, o', r') => ∀ qs,
+        run ⟨r, .obj o :: tl, d⟩ (.openBinK key :: qs) = .no :: run ⟨r', .obj o' :: tl, d⟩ qs
+    | .error _ => True := by
+  unfold objReadBin
+  cases hf : findValueByKey key o r with
+  | error e => trivial
+  | ok res =>
+    obtain ⟨b, o1, r1⟩ := res
+    cases b with
+    | false => intro qs; simp only [run, step, hf]
+    | true =>
+      simp only
+      cases hb : r1.isBinary with
+      | error e => trivial
+      | ok isb =>
+        cases isb with
+        | false => intro qs; simp only [run, step, hf, hb]
+        | true =>
+          simp only
+          cases hs : r1.readBinarySize with
+          | error e => trivial
+          | ok res2 =>
+            obtain ⟨sz, r2⟩ := res2
+            cases sz with
+            | none => intro qs; simp only [run, step, hf, hb, hs]
+            | some n =>
+              simp only
+              cases hrd : binReads k n 0 r2 with
+              | error e => trivial
+              | ok res3 =>
+                obtain ⟨bs, idx⟩ := res3
+                simp only
+                cases hcl : binClose n idx r2 with
+                | error e => trivial
+                | ok r3 =>
+                  refine ⟨n, fun qs => ?_⟩
+                  have := binReads_is_machine k n 0 r2 (.obj o1 :: tl) d bs idx hrd (.close :: qs)
+                  simp only [run, step, hf, hb, hs, this, hcl, notifyParent]
+
 /-- the composite `objReadArr` is what the scope machine (the model run against the real scopes) does for the requests
     `OpenArrayScope(key)`, one `SerializeValue` per kind, destroy — on the witness of the former finding and around it -/
 example :
@@ -371,6 +478,104 @@ example :
       = [.opened 2, .opened 3, .val (.int 1), .closed, .closed, .err .parsing] := by
   decide
 
+/-! #### binary scopes left partly read (the former defect of `CMsgPackReadBinaryScope`): a positive statement
+
+`~CMsgPackReadBinaryScope` skips the bytes that were not read (errors deferred to `Finalize()`); before that repair a
+binary scope closed early left the reader inside the payload. -/
+
+/-- the witness: `{"a": bin(1,2,3,4,5), "b": 5} 7`, open "a" as a binary scope, read two bytes, close, request "b",
+    close, read the sentinel — every answer is the data-model answer -/
+theorem binary_left_partly_read_harmless :
+    run (initSt [.map 2, .str [97], .bin [1, 2, 3, 4, 5], .str [98], .int 5, .int 7] .skip)
+        [.openObj, .openBinK (.str [97]), .readByte, .readByte, .close, .get (.str [98]) .int, .close, .next .int]
+      = [.opened 2, .opened 5, .val (.byte 1), .val (.byte 2), .closed, .val (.int 5), .closed, .val (.int 7)] := by
+  decide
+
+/-- the same inside an array and at the root, read partly and not at all; `OpenBinaryScope` on the value that is not a
+    `bin` leaves it in place and does not count it -/
+theorem binary_left_partly_read_harmless_in_array :
+    run (initSt [.arr 3, .bin [1, 2, 3, 4, 5], .int 9, .bin [6, 7], .bin [8, 9], .int 7] .skip)
+        [.openArr, .openBin, .readByte, .close, .openBin, .next .int, .openBin, .close, .isEnd, .close,
+         .openBin, .close, .next .int]
+      = [.opened 3, .opened 5, .val (.byte 1), .closed, .no, .val (.int 9), .opened 2, .closed, .flag true, .closed,
+         .opened 2, .closed, .val (.int 7)] := by
+  decide
+
+/-- single-byte MessagePack values: what a reader that was left inside a payload takes the next byte for -/
+def byteTok (b : Nat) : Option Tok :=
+  if b < 128 then some (.int b)
+  else if b = 0xc0 then some .nil
+  else if b = 0xc2 then some (.bool false)
+  else if b = 0xc3 then some (.bool true)
+  else if 0xe0 ≤ b ∧ b < 256 then some (.int (Int.ofNat b - 256))
+  else none
+
+/-- the scope machine WITHOUT `~CMsgPackReadBinaryScope` (the code before the fix): the reader stays where the last byte
+    request left it, so the rest of the payload is what the enclosing scope reads next. At the token level: the `bin`
+    token is replaced by its unread bytes taken as values. Domain of this description (otherwise `badReq`): unread bytes
+    that are single-byte values, and no object scope below (an object scope may seek back and skip the intact value). -/
+def stepBeforeBinFix (st : St) (req : Req) : Ans × St :=
+  match st.stack, req with
+  | .bin _ index :: tl, .close =>
+    match st.rd.rest with
+    | .bin bs :: _ =>
+      if tl.all (fun s => match s with | .obj _ => false | _ => true) then
+        match (bs.drop index).mapM byteTok with
+        | some ts =>
+          (.closed, { st with rd := { st.rd with doc := st.rd.doc.take st.rd.pos ++ ts ++ st.rd.doc.drop (st.rd.pos + 1) }, stack := tl })
+        | none => (.badReq, st)
+      else (.badReq, st)
+    | _ => (.badReq, st)
+  | _, _ => step st req
+
+def runBeforeBinFix : St → List Req → List Ans
+  | st, [] =>
+    match st.deferred with
+    | some e => [.err e]
+    | none => []
+  | st, q :: qs =>
+    match stepBeforeBinFix st q with
+    | (.err e, _) => [.err e]
+    | (.terminate, _) => [.terminate]
+    | (.badReq, _) => [.badReq]
+    | (a, st') => a :: runBeforeBinFix st' qs
+
+/-- why the destructor is needed (documented refutation of the unrepaired code): `[bin(1,2,3,4,5), 9] 7`, one byte read —
+    without the skip the array's second element is read from inside the payload (`2`), and the sentinel too (`3`); these
+    are the answers the unrepaired real code gave (`P2;P5;T01;C;Ti2;C;Ti3`) -/
+theorem binary_left_partly_read_refuted_before_fix :
+    runBeforeBinFix (initSt [.arr 2, .bin [1, 2, 3, 4, 5], .int 9, .int 7] .skip)
+        [.openArr, .openBin, .readByte, .close, .next .int, .close, .next .int]
+      = [.opened 2, .opened 5, .val (.byte 1), .closed, .val (.int 2), .closed, .val (.int 3)] ∧
+    run (initSt [.arr 2, .bin [1, 2, 3, 4, 5], .int 9, .int 7] .skip)
+        [.openArr, .openBin, .readByte, .close, .next .int, .close, .next .int]
+      = [.opened 2, .opened 5, .val (.byte 1), .closed, .val (.int 9), .closed, .val (.int 7)] := by
+  decide
+
+/-! #### ext values and timestamps: complete values like any other -/
+
+/-- an ext value of any type and payload, and a timestamp, are complete values: `SkipValue` passes over exactly the one
+    token (byte level: header + type + payload, `C05.reader_skip_exact`), so the history theorems above hold for
+    objects that contain them -/
+theorem ext_and_timestamp_are_complete_values (ty : Int) (p : List Nat) (sec : Int) (ns : Nat) :
+    WFv [.ext ty p] ∧ WFv [.ts sec ns] ∧ WFv [keyTok (.ts sec ns)] :=
+  ⟨wfv_scalar _ rfl, wfv_scalar _ rfl, wfv_scalar _ rfl⟩
+
+/-- unread ext values and timestamp keys in front of, between and behind the requested fields: passed over when the scan
+    goes by and when the scope closes; a timestamp loads only into the timestamp target -/
+example :
+    run (initSt [.map 4, .str [97], .ext 5 [1, 2, 3], .ts 5 0, .ext (-128) [], .str [98], .int 5, .int 3, .ts 1700000000 999999999, .int 7] .skip)
+        [.openObj, .get (.str [98]) .int, .get (.int 3) .ts, .get (.ts 5 0) .ts, .get (.int 3) .int, .get (.str [97]) .ts, .close, .next .int]
+      = [.opened 4, .val (.int 5), .val (.ts 1700000000 999999999), .no, .no, .no, .closed, .val (.int 7)] := by
+  decide
+
+/-- an integer token outside int64 (a uint64 value ≥ 2^63) does not fit the int64 target: Overflow, not a value -/
+example :
+    run (initSt [.int 9223372036854775808] .throwError) [.next .int] = [.err .overflow] ∧
+    run (initSt [.int 9223372036854775807] .throwError) [.next .int] = [.val (.int 9223372036854775807)] ∧
+    run (initSt [.int (-9223372036854775808)] .throwError) [.next .int] = [.val (.int (-9223372036854775808))] := by
+  decide
+
 /-! #### non-vacuity -/
 
 def exampleLayout : Layout := ⟨[.map 2], [(.str [97], [.arr 2, .int 1, .int 2]), (.int 5, [.str [120]])], [.int 7]⟩
@@ -388,6 +593,26 @@ example : exampleLayout.ArrWF := by
   rcases he with rfl | rfl
   · exact ⟨[[.int 1], [.int 2]], rfl, by intro v hv; simp at hv; rcases hv with rfl | rfl <;> exact wfv_scalar _ rfl⟩
   · simp at h
+
+/-- a layout with an ext value, a timestamp key and a `bin` value -/
+def exampleLayout2 : Layout :=
+  ⟨[.map 3], [(.str [97], [.bin [1, 2, 3]]), (.ts 5 0, [.ext 7 [9, 9]]), (.int 5, [.str [120]])], [.int 7]⟩
+
+example : exampleLayout2.WF := by
+  intro e he
+  simp [exampleLayout2] at he
+  rcases he with rfl | rfl | rfl <;> exact wfv_scalar _ rfl
+
+example : exampleLayout2.ArrWF := by
+  intro e he n ts h
+  simp [exampleLayout2] at he
+  rcases he with rfl | rfl | rfl <;> simp at h
+
+-- the `bin` value read partly, fully, not at all and beyond its end; OpenBinaryScope on values that are not `bin`
+example : (runReqs [.bin (.str [97]) 1, .get (.int 5) .str, .bin (.str [97]) 3, .bin (.ts 5 0) 0, .bin (.str [97]) 0, .bin (.int 5) 2,
+    .get (.int 5) .str] ⟨1, 3, 0, none⟩ ⟨exampleLayout2.doc, 1, .skip⟩).toOption.map (fun x => x.1.length) = some 7 ∧
+    (runReqs [.bin (.str [97]) 4] ⟨1, 3, 0, none⟩ ⟨exampleLayout2.doc, 1, .skip⟩).toOption.isNone = true := by
+  decide
 
 -- an array read partly (one of two elements), then fields before and after it, then the array again in full
 example : (runReqs [.arr (.str [97]) [.int], .get (.int 5) .str, .arr (.str [97]) [.int, .int], .arr (.str [97]) [], .get (.int 5) .str]
